@@ -11,11 +11,12 @@ from hypothesis import strategies as st
 from vf import lattice as lt
 from vf.core import Cell, Ctx, Violation
 from vf.foamdict import FoamParseError
-from vf.refmodel import apply, m_rotate, m_scale, rodrigues
+from vf.refmodel import apply, m_mirror, m_rotate, m_scale, rodrigues
 
 warnings.simplefilter("ignore")
 
 import classy_blocks as cb  # noqa: E402
+from classy_blocks.base import transforms as cbtr  # noqa: E402
 from classy_blocks.construct.curves.analytic import AnalyticCurve, CircleCurve, LineCurve  # noqa: E402
 from classy_blocks.construct.curves.discrete import DiscreteCurve  # noqa: E402
 from classy_blocks.construct.curves.interpolated import LinearInterpolatedCurve, SplineInterpolatedCurve  # noqa: E402
@@ -23,10 +24,11 @@ from classy_blocks.construct.curves.interpolated import LinearInterpolatedCurve,
 RULE = (
     "Point sets are random walks (3-12 points, 4-12 for splines; step lengths spread over a factor of up to 20, three "
     "levels of turning) at scales 0.1-100 or small in absolute units (1e-2, 1e-3, 3e-4, 1e-4; shortest spacing 1 x "
-    "scale >= 1000 TOL), plus (closest / edge cells) unit-size piecewise-linear curves with a fine detail: a fillet of "
+    "scale >= 1000 TOL); discrete curves may sit up to 1e8 spacings from the origin; plus (closest / edge cells) unit-size piecewise-linear curves with a fine detail: a fillet of "
     "radius 0.005-0.02 through 20-120 points (segments down to 6e-5). Three in five point curves are built from source "
-    "points and then moved by the library's own translate / rotate / scale / shear (shear twice as likely; plane below "
-    "all points, non-unit normal and direction) while the harness maps the points itself (R-AFFINE; shear = p + d "
+    "points and then moved by the library's own translate / rotate / scale / shear / mirror (shear twice as likely; plane below "
+    "all points, non-unit normal and direction), either by one method call per step or through the transformation-list "
+    "interface curve.transform([...]), optionally followed by a translation as a second step, while the harness maps the points itself (R-AFFINE; shear = p + d "
     "(p-o).n / tan(angle)); the first library call after that is drawn: the cell's own query, get_point, get_length or "
     "get_closest_param. Line / Circle (rim perpendicular to a non-unit normal, full or clipped "
     "bounds) / helix / twisted-cubic analytic curves in random frames, the user function of the last two written in one of "
@@ -110,23 +112,43 @@ def transformed_points(points, tr):
         return apply(m_rotate(tr["angle"], tr["axis"], tr["origin"]), P)
     if kind == "scale":
         return apply(m_scale(tr["ratio"], tr["origin"]), P)
+    if kind == "mirror":
+        return apply(m_mirror(tr["normal"], tr["origin"]), P)
     # shear: every point lies on the positive side of the plane (origin, normal) by construction
     n = np.array(tr["normal"]) / np.linalg.norm(tr["normal"])
     d = np.array(tr["direction"]) / np.linalg.norm(tr["direction"])
     return P + np.outer(((P - np.array(tr["origin"])) @ n) / math.tan(tr["angle"]), d)
 
 
+def image_points(points, tr):
+    """image under the drawn transform, followed by the optional second step (a translation)"""
+    P = transformed_points(points, tr)
+    return P + np.array(tr["then"]) if tr.get("then") else P
+
+
 def apply_transform(curve, tr):
-    """the same transform through the library's own methods"""
+    """the same through the library: one method call per step, or one transform([...]) call with the list of steps"""
     kind = tr["kind"]
+    if tr.get("via") == "list":
+        step = {"translate": lambda: cbtr.Translation(tr["displacement"]),
+                "rotate": lambda: cbtr.Rotation(tr["axis"], tr["angle"], tr["origin"]),
+                "scale": lambda: cbtr.Scaling(tr["ratio"], tr["origin"]),
+                "mirror": lambda: cbtr.Mirror(tr["normal"], tr["origin"]),
+                "shear": lambda: cbtr.Shear(tr["normal"], tr["origin"], tr["direction"], tr["angle"])}[kind]()
+        curve.transform([step, *([cbtr.Translation(tr["then"])] if tr.get("then") else [])])
+        return
     if kind == "translate":
         curve.translate(tr["displacement"])
     elif kind == "rotate":
         curve.rotate(tr["angle"], tr["axis"], tr["origin"])
     elif kind == "scale":
         curve.scale(tr["ratio"], tr["origin"])
+    elif kind == "mirror":
+        curve.mirror(tr["normal"], tr["origin"])
     else:
         curve.shear(tr["normal"], tr["origin"], tr["direction"], tr["angle"])
+    if tr.get("then"):
+        curve.translate(tr["then"])
 
 
 @st.composite
@@ -134,22 +156,29 @@ def transform_of(draw, points):
     P = np.array(points)
     centre = P.mean(axis=0)
     size = float(np.linalg.norm(P - centre, axis=1).max())
-    kind = draw(st.sampled_from(["shear", "shear", "translate", "rotate", "scale"]))
+    kind = draw(st.sampled_from(["shear", "shear", "translate", "rotate", "scale", "mirror"]))
     origin = [float(x) for x in centre + size * np.array(draw(_vec))]
+    # one method call per step (curve.rotate(...)) or the transformation-list interface (curve.transform([...]))
+    common = {"kind": kind, "via": draw(st.sampled_from(["method", "list"]))}
+    if draw(st.sampled_from([False, False, True])):
+        common["then"] = [float(x) for x in size * np.array(draw(_vec))]
     if kind == "translate":
-        return {"kind": kind, "displacement": [float(x) for x in 2 * size * np.array(draw(_vec))]}
+        return {**common, "displacement": [float(x) for x in 2 * size * np.array(draw(_vec))]}
     if kind == "rotate":
-        return {"kind": kind, "angle": draw(st.floats(-3.0, 3.0)), "axis": [float(x) for x in _normalised(draw(_vec), [0, 0, 1])],
+        return {**common, "angle": draw(st.floats(-3.0, 3.0)), "axis": [float(x) for x in _normalised(draw(_vec), [0, 0, 1])],
                 "origin": origin}
     if kind == "scale":
-        return {"kind": kind, "ratio": draw(st.floats(0.3, 3.0)), "origin": origin}
+        return {**common, "ratio": draw(st.floats(0.3, 3.0)), "origin": origin}
+    if kind == "mirror":
+        return {**common, "normal": [float(x) for x in _normalised(draw(_vec), [0, 0, 1]) * draw(st.sampled_from([1.0, 0.3, 4.0]))],
+                "origin": origin}
     n = _normalised(draw(_vec), [0, 0, 1])
     d = np.array(draw(_vec))
     d = _normalised(d - (d @ n) * n, np.cross(n, [1, 0, 0]) if abs(n[0]) < 0.9 else np.cross(n, [0, 1, 0]))
     d = d - (d @ n) * n
     below = centre - n * (float(((P - centre) @ n).max() - ((P - centre) @ n).min()) + 0.5 * size)
     angle = draw(st.sampled_from([1.0, -1.0])) * draw(st.floats(0.5, 1.3))
-    return {"kind": kind, "normal": [float(x) for x in n * draw(st.sampled_from([1.0, 0.3, 4.0]))],
+    return {**common, "normal": [float(x) for x in n * draw(st.sampled_from([1.0, 0.3, 4.0]))],
             "direction": [float(x) for x in d / np.linalg.norm(d) * draw(st.sampled_from([1.0, 0.3, 4.0]))],
             "origin": [float(x) for x in below], "angle": angle if angle > 0 else math.pi + angle}
 
@@ -163,11 +192,20 @@ def point_curve(draw, kinds=("linear", "spline")):
     # the first library call after construction / transformation (None: the cell's own first query)
     spec["first"] = draw(st.sampled_from([None, None, "point", "length", "closest"]))
     points = draw(point_set(4 if kind == "spline" else 3))
+    if kind == "discrete":
+        # a point list far from the origin compared with its resolution (surveyed / UTM-like coordinates): the shortest
+        # spacing is 1 x scale, the offset up to 1e8 x scale in each coordinate (one ulp there is 2e-8 of the spacing)
+        ratio = draw(st.sampled_from([0.0, 0.0, 1e5, 3e7, 1e8]))
+        if ratio:
+            seg = np.linalg.norm(np.diff(np.array(points), axis=0), axis=1).min()
+            shift = ratio * seg * np.array([draw(st.floats(0.3, 1.0)) * draw(st.sampled_from([1.0, -1.0])) for _ in range(3)])
+            points = [[float(x) for x in q] for q in np.array(points) + shift]
+        spec["offset_ratio"] = ratio
     if draw(st.sampled_from([False, False, True, True, True])):
         # the curve is built from source_points and transformed by the library; "points" is where the harness expects it
         spec["source_points"] = points
         spec["transform"] = draw(transform_of(points))
-        points = [[float(x) for x in q] for q in transformed_points(points, spec["transform"])]
+        points = [[float(x) for x in q] for q in image_points(points, spec["transform"])]
     spec["points"] = points
     return spec
 
@@ -386,12 +424,19 @@ def size_labels(spec):
     out = ["size<1e-2" if size < 1e-2 else ("size<1" if size < 1 else "size>=1")]
     if "points" in spec:
         out += ["transform=" + str((spec.get("transform") or {}).get("kind")), "first=" + str(spec.get("first") or "own")]
+        if spec.get("transform"):
+            out.append("transform-via=" + spec["transform"].get("via", "method") + ("+then" if spec["transform"].get("then") else ""))
     if "points" in spec:
         seg = np.linalg.norm(np.diff(np.array(spec["points"]), axis=0), axis=1)
         out.append("shortest-segment<3e-4" if seg.min() < 3e-4 else "shortest-segment>=3e-4")
     if "detail" in spec:
         out.append("fine-detail")
     return out
+
+
+def rounding_noise(spec) -> float:
+    """what float64 rounding of the coordinates themselves can contribute to a distance"""
+    return 16 * np.finfo(float).eps * float(np.abs(np.array(spec["points"])).max()) if "points" in spec else 0.0
 
 
 def spacing_ratio(spec) -> float:
@@ -428,7 +473,7 @@ def nontrivial(case, ctx: Ctx) -> None:
     if "style" in spec:
         ctx.label("function-style=" + spec["style"])
     if "points" in spec:
-        ctx.label("ratio>2" if ratio > 2 else "ratio<=2", "ratio>10" if ratio > 10 else "ratio<=10", *size_labels(spec)[1:3])
+        ctx.label("ratio>2" if ratio > 2 else "ratio<=2", "ratio>10" if ratio > 10 else "ratio<=10", *size_labels(spec)[1:])
     if "params" in case and len(case["params"]) >= 2:
         a, b = case["params"][:2]
         ctx.label("a<b" if a < b else ("a>b" if a > b else "a=b"))
@@ -455,7 +500,7 @@ def check_ends(case, ctx: Ctx) -> None:
     pts = np.asarray(pts, dtype=float)
     pa = np.asarray(call("get-point-raised", case, curve.get_point, a_eff), dtype=float)
     pb = np.asarray(call("get-point-raised", case, curve.get_point, b_eff), dtype=float)
-    tol = 1e-12 * size_of(spec)
+    tol = 1e-12 * size_of(spec) + rounding_noise(spec)
     if pts.ndim != 2 or pts.shape[1] != 3 or len(pts) < 1:
         raise Violation("discretize-shape", f"discretize returned shape {pts.shape}", **facts_of(case))
     if np.linalg.norm(pts[0] - pa) > tol:
@@ -521,7 +566,7 @@ def check_length_discrete(case, ctx: Ctx) -> None:
     pts = np.array(spec["points"])
     lo, hi = min(a, b), max(a, b)
     L = polyline(pts)
-    tol = 1e-12 * L
+    tol = 1e-12 * L + len(pts) * rounding_noise(spec)
     lab = _len(case, curve, a, b)
     want = polyline(pts[lo : hi + 1])
     if abs(lab - want) > tol:
@@ -794,7 +839,7 @@ def check_closest_discrete(case, ctx: Ctx) -> None:
             return
         raise Violation("closest-raised", f"get_closest_param raised {type(ex).__name__}: {ex}", **facts_of(case)) from None
     dist = np.linalg.norm(pts - q, axis=1)
-    ok = float(t) == int(t) and 0 <= int(t) < len(pts) and dist[int(t)] <= dist.min() + 1e-12 * polyline(pts)
+    ok = float(t) == int(t) and 0 <= int(t) < len(pts) and dist[int(t)] <= dist.min() + 1e-12 * polyline(pts) + rounding_noise(spec)
     if mode == "far":
         ctx.label("far:as-good" if ok else "far:worse")
         return
@@ -804,7 +849,7 @@ def check_closest_discrete(case, ctx: Ctx) -> None:
         raise Violation("closest-not-minimal", f"returned index {t} at distance {dist[int(t)]}, point {int(np.argmin(dist))} "
                         f"is at {dist.min()}", **facts_of(case))
     ctx.nt(spacing_ratio(spec) > 2)
-    ctx.label("near", "frac=%g" % case["query"]["frac"])
+    ctx.label("near", "frac=%g" % case["query"]["frac"], "offset/spacing=%g" % spec.get("offset_ratio", 0.0))
 
 
 def check_closest_function(case, ctx: Ctx) -> None:
